@@ -96,6 +96,7 @@ func vfNewGateEnv(kind string, proto int, coalesce bool) (*vfGateEnv, error) {
 	}
 	s, d, err := vfSingleNodeSession(e.node, proto, func(c *ClusterConfig) {
 		c.Timeout = 400 * time.Millisecond
+		c.ConnectTimeout = 700 * time.Millisecond
 		c.StreamObserver = &vfGateObserver{sc: e.sc}
 		if coalesce {
 			c.WriteCoalesceWaitTime = 200 * time.Microsecond
@@ -315,6 +316,60 @@ var vfGateScenarios = map[string]func(e *vfGateEnv) string{
 		gf.Release()
 		return ""
 	},
+	// C06: the connection fails DURING the handshake (node silent / hangs up / answers garbage after
+	// STARTUP): connecting must return an error within the connect timeout, never hang, and leave no
+	// connection behind
+	"handshake_faults": func(e *vfGateEnv) string {
+		host := e.s.ring.allHosts()[0]
+		prev := e.node.Handler
+		for _, mode := range []string{"silent", "hangup", "garbage", "wrongframe"} {
+			mode := mode
+			e.node.Handler = func(nc *vfNodeConn, f *vfFrame, q *vfRequest) bool {
+				if f.Op != vfOpStartup {
+					return prev(nc, f, q)
+				}
+				switch mode {
+				case "silent":
+				case "hangup":
+					nc.Close()
+				case "garbage":
+					nc.Send([]byte{0x84, 0x00, 0x00})
+					nc.Close()
+				case "wrongframe":
+					nc.Reply(f, vfOpResult, vfVoidBody())
+				}
+				return true
+			}
+			before := e.node.OpenConns()
+			e.tr.Emit("hs_call", "mode", mode)
+			var cerr error
+			var c2 *Conn
+			ok, dump := vfWithin(8*time.Second, func() {
+				c2, cerr = e.s.connect(e.s.ctx, host, &vfConnNopHandler{closedCh: make(chan struct{})})
+			})
+			if !ok {
+				e.tr.Emit("env_stuck", "what", "call", "req", 0, "dump", dump[:vfMin(len(dump), 3000)])
+				continue
+			}
+			if cerr == nil && c2 != nil {
+				// a handshake the node never completed must not produce a usable connection
+				e.tr.Emit("ret", "req", 0, "conn", e.connID, "outcome", "hs-connected-without-ready:"+mode, "echo", "", "tok", "")
+				c2.Close()
+			}
+			// the failed attempt's socket must be closed by the driver
+			for i := 0; i < 500 && e.node.OpenConns() > before; i++ {
+				time.Sleep(2 * time.Millisecond)
+			}
+			if e.node.OpenConns() > before {
+				e.tr.Emit("ret", "req", 0, "conn", e.connID, "outcome", "hs-socket-left-open:"+mode, "echo", "", "tok", "")
+			}
+			e.tr.Emit("hs_ret", "mode", mode, "err", vfErrClass(cerr))
+		}
+		e.node.Handler = prev
+		// the original connection still works
+		e.start("prompt", false)
+		return ""
+	},
 	// C06: a request that is never written (frame build failure) gives its stream id back; a second
 	// request that is handed exactly that id in the middle of the clean-up must work normally
 	"undo_window": func(e *vfGateEnv) string {
@@ -394,7 +449,7 @@ func TestVfConnGates(t *testing.T) {
 	if vfOutDir() == "" {
 		t.Skip("VF_OUT not set")
 	}
-	names := []string{"closer_before_select", "closer_vs_giveup", "recv_vs_giveup", "late_answer_after_timeout", "two_closers", "write_after_partial", "cancel_while_queued", "undo_window"}
+	names := []string{"closer_before_select", "closer_vs_giveup", "recv_vs_giveup", "late_answer_after_timeout", "two_closers", "write_after_partial", "cancel_while_queued", "undo_window", "handshake_faults"}
 	k := 0
 	var inconclusive []string
 	for _, name := range names {
